@@ -153,9 +153,10 @@ func checkC07(r *Run) {
 		}
 		return out
 	}
-	for si := 0; si < nSets; si++ {
+	for si := 0; si <= nSets; si++ {
 		rng := newRNG("C07", r.Seed, si)
 		sub := filepath.Join(dir, fmt.Sprintf("set%d", si))
+		crossPackage := si == nSets // last set: fixed CUE packages, one of which refers to objects of another
 		formats := []string{"jsonschema", "openapi", "cue"}
 		shuffle(rng, formats)
 		npk := rng.Range(2, 3)
@@ -167,6 +168,21 @@ func checkC07(r *Run) {
 		}
 		var inputs []pipeInput
 		pkgs := []string{"pka", "pkb", "pkc"}[:npk]
+		if crossPackage {
+			nameTag = "tag:cross-package-references"
+			pkgs = []string{"pka", "pkb", "pkc"}
+			for _, pk := range pkgs {
+				d := filepath.Join(sub, "in", pk)
+				_ = os.MkdirAll(d, 0o755)
+				_ = os.WriteFile(filepath.Join(d, pk+".cue"), []byte(c07CrossCUE[pk]), 0o644)
+				in := pipeInput{Kind: "cue", Path: d, Package: pk}
+				if pk == "pka" {
+					in.CueImports = []string{filepath.Join(sub, "in", "pkc") + ":example.com/lib/pkc"}
+				}
+				inputs = append(inputs, in)
+			}
+			npk = 0
+		}
 		for i := 0; i < npk; i++ {
 			am := genAM(newRNG("c07am", r.Seed, si, i), capsFor(formats[i]), pkgs[i], "general")
 			if !sameNames {
@@ -266,7 +282,7 @@ func checkC07(r *Run) {
 	}
 
 	// (d) same-package merging
-	nd := r.n(12, 150)
+	nd := r.n(15, 150)
 	for c := 0; c < nd; c++ {
 		rng := newRNG("C07d", r.Seed, c)
 		format := pick(rng, []string{"openapi", "cue"})
@@ -284,9 +300,30 @@ func checkC07(r *Run) {
 			am2.Objs = append(am2.Objs, &amObject{Name: dup.Name, T: st(fld("id", true, ty("string")), fld("n", false, ty("bool")))})
 			dupName = dup.Name
 		case "conflicting-duplicate":
-			am1.Objs = append(am1.Objs, &amObject{Name: "AaShared", T: st(fld("id", true, ty("string")))})
-			am2.Objs = append(am2.Objs, &amObject{Name: "AaShared", T: st(fld("id", true, ty("bool")), fld("other", true, ty("string")))})
 			dupName = "AaShared"
+			// how the two definitions differ: by a lot, or by one detail only
+			switch how := (c / 3) % 5; how {
+			case 0:
+				am1.Objs = append(am1.Objs, &amObject{Name: "AaShared", T: st(fld("id", true, ty("string")))})
+				am2.Objs = append(am2.Objs, &amObject{Name: "AaShared", T: st(fld("id", true, ty("bool")), fld("other", true, ty("string")))})
+			case 1:
+				// the referenced object's name differs by case only; both objects exist, identically, in both inputs
+				for _, am := range []*amSchema{am1, am2} {
+					am.Objs = append(am.Objs, &amObject{Name: "Status", T: st(fld("code", true, ty("string")))}, &amObject{Name: "status", T: st(fld("on", true, ty("bool")))})
+				}
+				am1.Objs = append(am1.Objs, &amObject{Name: "AaShared", T: st(fld("id", true, ty("string")), fld("state", true, rf("Status")))})
+				am2.Objs = append(am2.Objs, &amObject{Name: "AaShared", T: st(fld("id", true, ty("string")), fld("state", true, rf("status")))})
+			case 2:
+				am1.Objs = append(am1.Objs, &amObject{Name: "AaShared", T: st(fld("id", true, ty("string")), fld("n", true, ty("bool")))})
+				am2.Objs = append(am2.Objs, &amObject{Name: "AaShared", T: st(fld("id", true, ty("string")), fld("n", false, ty("bool")))})
+			case 3:
+				am1.Objs = append(am1.Objs, &amObject{Name: "AaShared", T: st(fld("id", true, strLen(1, 6)))})
+				am2.Objs = append(am2.Objs, &amObject{Name: "AaShared", T: st(fld("id", true, strLen(1, 7)))})
+			case 4:
+				am1.Objs = append(am1.Objs, &amObject{Name: "AaShared", T: st(fld("id", true, ty("string")), fld("tags", true, arr(ty("string"))))})
+				am2.Objs = append(am2.Objs, &amObject{Name: "AaShared", T: st(fld("id", true, ty("string")), fld("tags", true, arr(ty("bool"))))})
+			}
+			variant = fmt.Sprintf("conflicting-duplicate/%d", (c/3)%5)
 		}
 		am1.Pkg, am2.Pkg = "pk", "pk"
 		in1, _ := materializeAM(filepath.Join(sub, "one"), am1, format)
@@ -324,9 +361,9 @@ func checkC07(r *Run) {
 			merged, err := load(order...)
 			r.Eval()
 			r.Distinct(fmt.Sprintf("merge%d-%d", c, oi))
-			if variant == "conflicting-duplicate" {
+			if strings.HasPrefix(variant, "conflicting-duplicate") {
 				if err == nil {
-					r.Violation("conflicting-definitions-merged-silently", fmt.Sprintf("two inputs of package pk define %s differently; the run succeeds (input order %d)", dupName, oi), replay)
+					r.Violation("conflicting-definitions-merged-silently/"+[]string{"unrelated-definitions", "reference-differs-by-case", "required-differs", "constraint-differs", "element-type-differs"}[(c/3)%5], fmt.Sprintf("two inputs of package pk define %s differently; the run succeeds (input order %d)", dupName, oi), replay)
 				} else if !errors.Is(err, ast.ErrCannotMergeSchemas) && !strings.Contains(err.Error(), "conflict") {
 					r.Count("conflict_reported_with_other_error", 1)
 				}
@@ -396,6 +433,13 @@ func checkC07(r *Run) {
 		r.Inconclusive("hook chain.begin never fired")
 	}
 	_ = sort.Strings
+}
+
+// c07CrossCUE: pka refers to objects of pkc (a struct, an enum, through a list and a map); pkb stands alone.
+var c07CrossCUE = map[string]string{
+	"pkc": "package pkc\n\n#Shared: {\n\tid: string\n\tnote?: string\n\tunit?: #Unit\n}\n\n#Unit: \"ms\" | \"s\"\n\n#Unused: {\n\tn: int64\n}\n",
+	"pka": "package pka\n\nimport \"example.com/lib/pkc\"\n\n#Foo: {\n\ttitle: string\n\tshared: pkc.#Shared\n\tunit?: pkc.#Unit\n\tmore?: [...pkc.#Shared]\n\tbyKey?: {[string]: pkc.#Shared}\n}\n",
+	"pkb": "package pkb\n\n#Bar: {\n\tname: string\n\tsize?: int64\n\tinner?: #Inner\n}\n\n#Inner: {\n\tflag: bool\n}\n",
 }
 
 // lineDiff shows the first differing lines of two texts.
